@@ -354,7 +354,7 @@ def compute_bound_contracts(reg):
         defaults=dict(enlarge_per_dim=1.1, n_points_min=None,
                       split_threshold=100, periodic=None, n_networks=4,
                       neural_network_kwargs=None, pool=None, rng=None),
-        result=nb_result, mod_ghost=['rng']))
+        result=nb_result, mod_ghost=['rng', 'clock']))
 
 
 # ---------------------------------------------------------------------------
@@ -525,7 +525,7 @@ def add_bound_contract(G):
         pre=pre, post=post, result=result,
         mod_fields=['bounds', 'points', 'log_l', 'blobs', 'shell_t',
                     'points_t', 'log_l_t', 'blobs_t'] + SHELL_ARRAYS,
-        mod_ghost=['rng', 'sstate'],
+        mod_ghost=['rng', 'sstate', 'clock'],
         loops={0: LoopSpec(inv=inv0, prepare=prepare0)})
 
 
@@ -558,6 +558,21 @@ def add_samples_contract():
                     Vo.bool('self.explored')))
         out.append(('n_update_bounded', z3.And(
             I(res) >= 0, I(res) <= Vo.int('self.n_batch'))))
+        po, pn = S(Vo, 'points'), S(Vn, 'points')
+        lo_, ln_ = S(Vo, 'log_l'), S(Vn, 'log_l')
+        nb = S(Vo, 'bounds').n
+        sh = norm(Vo.int('shell'), nb)
+        i, j = A.qi('i'), A.qi('j')
+        out.append(('X_append_only', z3.And(
+            z3.ForAll([i], z3.Implies(z3.And(i >= 0, i < nb), z3.And(
+                pn.alen(i) >= po.alen(i),
+                z3.Implies(i != sh, pn.alen(i) == po.alen(i))))),
+            z3.ForAll([i, j], z3.Implies(
+                z3.And(i >= 0, i < nb, j >= 0, j < po.alen(i)),
+                z3.And(pn.at(i, j) == po.at(i, j),
+                       ln_.at(i, j) == lo_.at(i, j)))))))
+        out.append(('batch_stored_in_shell',
+                    pn.alen(sh) >= po.alen(sh) + Vo.int('self.n_batch')))
         return out
     return FnContract(
         SQ + 'add_samples', params=['shell', 'verbose'],
@@ -566,3 +581,125 @@ def add_samples_contract():
                     'blobs_dtype', 'shell_n_sample', 'shell_n', 'shell_log_v',
                     'shell_log_l', 'shell_n_eff'],
         mod_ghost=['rng', 'sstate'])
+
+
+# ---------------------------------------------------------------------------
+# discard_exploration setter
+
+def discard_setter_contract():
+    def pre(V):
+        out = M.inv_P1(V) + M.inv_rows_aligned(V) + M.inv_exp_arrays(V)
+        return out
+
+    def post(Vo, Vn, res):
+        out = [('flag_set', Vn.bool('self._discard_exploration') ==
+                B(Vo.raw('discard_exploration')))]
+        for nm in ('shell_n', 'shell_log_v', 'shell_log_l', 'shell_n_eff'):
+            out.append(('len_' + nm, S(Vn, nm).n == S(Vo, nm).n))
+        out += M.inv_N(Vn)
+        return out
+
+    def raises(Vo, Vn, exc):
+        return [('only_value_error', z3.BoolVal(exc == 'ValueError')),
+                ('state_unchanged_on_reject', z3.BoolVal(True))]
+
+    def inv0(V):
+        nb = S(V, 'bounds').n
+        kk = V.k(0)
+        out = []
+        for nm in ('shell_n', 'shell_log_v', 'shell_log_l', 'shell_n_eff'):
+            out.append(('len_' + nm, S(V, nm).n == nb))
+        i = A.qi('i')
+
+        def body(i):
+            start, ns, ll = M.shell_view(V, i)
+            return S(V, 'shell_n').at(i) == ll.n
+        out.append(('updated_prefix', z3.ForAll([i], z3.Implies(
+            z3.And(i >= 0, i < kk), body(i)))))
+        return out
+    return FnContract(
+        SQ + 'discard_exploration.setter', params=['discard_exploration'],
+        pre=pre, post=post, raises=raises,
+        mod_fields=['_discard_exploration', 'shell_n', 'shell_log_v',
+                    'shell_log_l', 'shell_n_eff'],
+        loops={0: LoopSpec(inv=inv0)})
+
+
+# ---------------------------------------------------------------------------
+# run
+
+def run_contract(G):
+    PARAMS = ['f_live', 'n_shell', 'n_eff', 'n_like_max',
+              'discard_exploration', 'timeout', 'verbose']
+
+    def pre(V):
+        return M.InvRun(V)
+
+    def result(ex, st, V):
+        return fresh('bool', 'success')
+
+    def post(Vo, Vn, res):
+        out = M.InvRun(Vn)
+        return out
+
+    def inv0(V):
+        return M.InvRun(V) + [('has_first_bound', S(V, 'bounds').n >= 1)]
+
+    def prepare1(ex, st):
+        snap = st.copy()
+        snap.env = dict(st.env)
+        G['rm_entry'] = snap
+
+    def inv1(V):
+        """removal of empty shells, highest index first"""
+        E = View(V.ex, G['rm_entry'])
+        kk = V.k(1)
+        Esn = S(E, 'shell_n')
+        mask = Arr(Esn.n, lambda i: Esn.at(i) == 0, 'bool')
+        c, sel, rank = A.sel_of(V.st, mask)
+        b = S(V, 'bounds')
+        nb = b.n
+        pts, ll = S(V, 'points'), S(V, 'log_l')
+        Eb, Ep, El = S(E, 'bounds'), S(E, 'points'), S(E, 'log_l')
+        lo = z3.If(kk == 0, Eb.n, sel(c - kk))
+        i, j, k = A.qi('i'), A.qi('j'), A.qi('k')
+        out = [('sizes', z3.And(
+            nb == Eb.n - kk, pts.n == nb, ll.n == nb, kk <= c, lo <= nb,
+            z3.Or(kk == 0, lo + 1 <= nb),
+            *[S(V, a).n == nb for a in SHELL_ARRAYS]))]
+        out.append(('prefix_unchanged', z3.ForAll([i], z3.Implies(
+            z3.And(i >= 0, i < lo), z3.And(
+                b.at(i) == Eb.at(i), pts.alen(i) == Ep.alen(i),
+                ll.alen(i) == El.alen(i),
+                *[S(V, a).at(i) == S(E, a).at(i) for a in SHELL_ARRAYS])))))
+        out.append(('prefix_points_unchanged', z3.ForAll([i, j], z3.Implies(
+            z3.And(i >= 0, i < lo, j >= 0, j < Ep.alen(i)),
+            pts.at(i, j) == Ep.at(i, j)))))
+        out.append(('suffix_nonempty', z3.ForAll([i], z3.Implies(
+            z3.And(i >= lo, i < nb), S(V, 'shell_n').at(i) != 0))))
+        out += M.inv_P2(V) + M.inv_rows_aligned(V) + M.inv_bounds(V)
+        out.append(('shell_n_counts', A.forall_idx(nb, lambda t: z3.And(
+            S(V, 'shell_n').at(t) == ll.alen(t),
+            S(V, 'shell_n').at(t) <= S(V, 'shell_n_sample').at(t)))))
+        bn, bl = blobs_of(V)
+        if bl is not None:
+            out.append(('blobs_aligned', z3.Implies(z3.Not(bn), z3.And(
+                bl.n == nb, A.forall_idx(
+                    nb, lambda t: bl.alen(t) == pts.alen(t))))))
+        return out
+
+    return FnContract(
+        SQ + 'run', params=PARAMS,
+        defaults=dict(f_live=0.01, n_shell=1, n_eff=10000, n_like_max=None,
+                      discard_exploration=False, timeout=None, verbose=False),
+        pre=pre, post=post, result=result,
+        mod_fields=['bounds', 'points', 'log_l', 'blobs', 'shell_t',
+                    'points_t', 'log_l_t', 'blobs_t', 'n_like', 'blobs_dtype',
+                    'explored', '_discard_exploration', 'shell_n_sample_exp',
+                    'shell_end_exp', 'n_update_iter', 'n_like_iter'] +
+        SHELL_ARRAYS, mod_ghost=['rng', 'sstate', 'clock'],
+        loops={0: LoopSpec(inv=inv0, extra_mods=[
+            ('self', '_discard_exploration'), ('self', 'shell_n'),
+            ('self', 'shell_log_v'), ('self', 'shell_log_l'),
+            ('self', 'shell_n_eff'), '$clock']),
+            1: LoopSpec(inv=inv1, prepare=prepare1)})
